@@ -133,7 +133,9 @@ pub fn check_cell(depth: u8, h: u64, part: &mut Part) -> Option<Viol> {
       Ok(v) => v,
       Err(m) => viol!("Layer::vertex", "panic-in-domain", case, "a vertex".into(), m),
     };
-    let same = |a: (f64, f64), b: (f64, f64)| a.0.to_bits() == b.0.to_bits() && a.1.to_bits() == b.1.to_bits();
+    // "the same" coordinates: identical up to a few ulps (a 2 pi shift of the longitude is a difference)
+    let close = |x: f64, y: f64| x == y || (x - y).abs() <= 4.0 * f64::EPSILON * x.abs().max(y.abs());
+    let same = |a: (f64, f64), b: (f64, f64)| close(a.0, b.0) && close(a.1, b.1);
     part.validated += 1;
     if !same(v1, vs[k]) || !same(v1, vmap[k]) {
       viol!("vertex/vertices/vertices_map", "vertex-accessors-differ", case, format!("the same {} vertex from the three accessors", CARD[k]), format!("vertex: {:?}, vertices: {:?}, vertices_map: {:?}", v1, vs[k], vmap[k]));
@@ -162,7 +164,8 @@ pub fn check_cell(depth: u8, h: u64, part: &mut Part) -> Option<Viol> {
         if path.len() != 4 * nseg as usize {
           viol!("nested::path_along_cell_edge", "wrong-length", case, format!("{} points", 4 * nseg), format!("{}", path.len()));
         }
-        let same0 = path[0].0.to_bits() == vs[k as usize].0.to_bits() && path[0].1.to_bits() == vs[k as usize].1.to_bits();
+        let close = |x: f64, y: f64| x == y || (x - y).abs() <= 4.0 * f64::EPSILON * x.abs().max(y.abs());
+        let same0 = close(path[0].0, vs[k as usize].0) && close(path[0].1, vs[k as usize].1);
         if !same0 {
           viol!("nested::path_along_cell_edge", "vertex-accessors-differ", case, format!("path starts at the {} vertex {:?}", CARD[k as usize], vs[k as usize]), format!("{:?}", path[0]));
         }
